@@ -24,6 +24,24 @@ type scoreCase struct {
 	vector string
 	level  string // decoder used: base | temporal | environmental
 	terms  []string
+	tok    map[string]string
+	ver    string
+	parts  [2]string // base part, base+temporal part
+}
+
+// aspects: "value" (C01-C05: the scores are the specification's), "grid" (C06: tenth grid, range, severity = band of the
+// same score), "neutral" (C13: Not Defined neutrality, temporal <= base), "views" (C14: lower-level views agree with
+// lower-level decoders). A hit of one aspect never confirms a property of another aspect.
+func scoreAspect(id string) string {
+	switch id {
+	case "C06":
+		return "grid"
+	case "C13":
+		return "neutral"
+	case "C14":
+		return "views"
+	}
+	return "value"
 }
 
 func v3ScoreCases(st *SpecTables) []scoreCase {
@@ -57,7 +75,17 @@ func v3ScoreCases(st *SpecTables) []scoreCase {
 		ke := fmt.Sprintf("(v3_env_k (parse_v3_VER \"%s\") %s %s (eff_v3_PR %s %s) %s %s %s %s %s %s %s %s %s %s %s)", ver,
 			eff("MAV", "AV"), eff("MAC", "AC"), p("MPR"), p("PR"), eff("MUI", "UI"), eff("MS", "S"), eff("MC", "C"), eff("MI", "I"), eff("MA", "A"),
 			p("CR"), p("IR"), p("AR"), p("E"), p("RL"), p("RC"))
-		return scoreCase{vector: v, level: level, terms: []string{kb, kt, ke}}
+		bp, tp := "CVSS:"+ver, ""
+		for _, n := range order[:8] {
+			bp += "/" + n + ":" + tok[n]
+		}
+		tp = bp
+		for _, n := range order[8:11] {
+			if c, ok := tok[n]; ok {
+				tp += "/" + n + ":" + c
+			}
+		}
+		return scoreCase{vector: v, level: level, terms: []string{kb, kt, ke}, tok: tok, ver: ver, parts: [2]string{bp, tp}}
 	}
 	for _, ver := range []string{"3.0", "3.1"} {
 		for _, av := range codes("AV") {
@@ -101,96 +129,155 @@ func v3ScoreCases(st *SpecTables) []scoreCase {
 
 var scoreProbeCache sync.Map
 
-// scoreProbe: v3 only (the v2 equations are relations with ties; v2 refutations replay through the family recipes).
-func scoreProbe(u *Universe, st *SpecTables, repo string) (string, bool) {
-	if v, ok := scoreProbeCache.Load(repo); ok {
+// scoreProbe: v3 (the v2 equations are relations with ties: v2ScoreProbe).
+func scoreProbe(u *Universe, st *SpecTables, repo, aspect string) (string, bool) {
+	key := "v3|" + aspect + "|" + repo
+	if v, ok := scoreProbeCache.Load(key); ok {
 		r := v.([2]interface{})
 		return r[0].(string), r[1].(bool)
 	}
-	rep, hit := scoreProbeRun(u, st, repo)
-	scoreProbeCache.Store(repo, [2]interface{}{rep, hit})
+	rep, hit := scoreProbeRun(u, st, repo, aspect)
+	scoreProbeCache.Store(key, [2]interface{}{rep, hit})
 	return rep, hit
 }
 
-func scoreProbeRun(u *Universe, st *SpecTables, repo string) (string, bool) {
-	head := "score probe on the real code (v3: all 5,184 base vectors and 3,000 seeded random temporal/environmental vectors decoded by the Environmental decoder; oracle: the specification prelude evaluated by z3 on the written codes; base, temporal and environmental score and the three severities are compared):\n"
-	cases := v3ScoreCases(st)
-	// expected values
-	var sb strings.Builder
-	sb.WriteString(u.Prelude)
-	for _, c := range cases {
-		for _, t := range c.terms {
-			fmt.Fprintf(&sb, "(simplify %s)\n", t)
-		}
+func v3Band(k int) string {
+	switch {
+	case k <= 0:
+		return "None"
+	case k < 40:
+		return "Low"
+	case k < 70:
+		return "Medium"
+	case k < 90:
+		return "High"
 	}
+	return "Critical"
+}
+
+func onGrid(x float64, lo, hi int) (int, bool) {
+	k := math.Round(x * 10)
+	if math.IsNaN(x) || math.IsInf(x, 0) {
+		return 0, false
+	}
+	return int(k), x == k/10 && int(k) >= lo && int(k) <= hi
+}
+
+func scoreProbeRun(u *Universe, st *SpecTables, repo, aspect string) (string, bool) {
+	head := "score probe on the real code, aspect '" + aspect + "' (v3: all 5,184 base vectors and 3,000 seeded random temporal/environmental vectors decoded by the Environmental decoder"
+	switch aspect {
+	case "value":
+		head += "; oracle: the specification prelude evaluated by z3 on the written codes; base, temporal and environmental score are compared):\n"
+	case "grid":
+		head += "; every score must be a multiple of 0.1 in 0..10 and not -0, every severity the rating band of the same score):\n"
+	case "neutral":
+		head += "; E/RL/RC all Not Defined => temporal = base; environmental metrics all Not Defined => environmental = temporal unless 3.1 and scope changed; temporal <= base):\n"
+	case "views":
+		head += "; base / temporal score, severity and encoding through the higher-level object against the lower-level decoders on the projected vector):\n"
+	}
+	cases := v3ScoreCases(st)
 	tmp, err := os.MkdirTemp("", "govc-scoreprobe-")
 	if err != nil {
 		return head + err.Error(), false
 	}
 	defer os.RemoveAll(tmp)
-	fn := tmp + "/expected.smt2"
-	os.WriteFile(fn, []byte(sb.String()), 0o644)
-	ctx, cancel := context.WithTimeout(context.Background(), 300*time.Second)
-	defer cancel()
-	cmd := exec.CommandContext(ctx, "z3-new", "-smt2", fn)
-	var out bytes.Buffer
-	cmd.Stdout = &out
-	cmd.Stderr = &out
-	_ = cmd.Run()
 	var exp []int
-	for _, ln := range strings.Split(out.String(), "\n") {
-		ln = strings.TrimSpace(ln)
-		if ln == "" {
-			continue
+	if aspect == "value" {
+		var sb strings.Builder
+		sb.WriteString(u.Prelude)
+		for _, c := range cases {
+			for _, t := range c.terms {
+				fmt.Fprintf(&sb, "(simplify %s)\n", t)
+			}
 		}
-		ln = strings.ReplaceAll(strings.ReplaceAll(strings.ReplaceAll(ln, "(", ""), ")", ""), " ", "")
-		n, err := strconv.Atoi(ln)
-		if err != nil {
-			return head + "probe did not run to completion (the solver did not evaluate the specification to a numeral: " + tail(out.String(), 300) + ")\n", false
+		fn := tmp + "/expected.smt2"
+		os.WriteFile(fn, []byte(sb.String()), 0o644)
+		ctx, cancel := context.WithTimeout(context.Background(), 300*time.Second)
+		defer cancel()
+		cmd := exec.CommandContext(ctx, "z3-new", "-smt2", fn)
+		var out bytes.Buffer
+		cmd.Stdout = &out
+		cmd.Stderr = &out
+		_ = cmd.Run()
+		for _, ln := range strings.Split(out.String(), "\n") {
+			ln = strings.TrimSpace(ln)
+			if ln == "" {
+				continue
+			}
+			ln = strings.ReplaceAll(strings.ReplaceAll(strings.ReplaceAll(ln, "(", ""), ")", ""), " ", "")
+			n, err := strconv.Atoi(ln)
+			if err != nil {
+				return head + "probe did not run to completion (the solver did not evaluate the specification to a numeral: " + tail(out.String(), 300) + ")\n", false
+			}
+			exp = append(exp, n)
 		}
-		exp = append(exp, n)
-	}
-	if len(exp) != 3*len(cases) {
-		return head + fmt.Sprintf("probe did not run to completion (%d of %d expected values)\n", len(exp), 3*len(cases)), false
+		if len(exp) != 3*len(cases) {
+			return head + fmt.Sprintf("probe did not run to completion (%d of %d expected values)\n", len(exp), 3*len(cases)), false
+		}
 	}
 	var reqs []map[string]interface{}
 	for _, c := range cases {
-		reqs = append(reqs, map[string]interface{}{"op": "decode", "level": c.level, "vector": c.vector})
+		if aspect == "views" {
+			reqs = append(reqs, map[string]interface{}{"op": "views", "vector": c.vector, "args": []string{c.parts[0], c.parts[1]}})
+		} else {
+			reqs = append(reqs, map[string]interface{}{"op": "decode", "level": c.level, "vector": c.vector})
+		}
 	}
 	ans, _, err := runHarness(repo, "v3/metric", reqs)
 	if err != nil || len(ans) != len(cases) {
 		return head + "probe did not run to completion (" + errString(err) + ")\n", false
 	}
-	band := func(k int) string {
-		switch {
-		case k <= 0:
-			return "None"
-		case k < 40:
-			return "Low"
-		case k < 70:
-			return "Medium"
-		case k < 90:
-			return "High"
+	names := []string{"base", "temporal", "environmental"}
+	allX := func(c scoreCase, ns ...string) bool {
+		for _, n := range ns {
+			if v, ok := c.tok[n]; ok && v != "X" {
+				return false
+			}
 		}
-		return "Critical"
+		return true
 	}
 	for i, c := range cases {
 		a := ans[i]
-		if a.Panic != "" {
-			return head + fmt.Sprintf("SCORE-HIT vector %s: the real code panics: %s\n=> CONFIRMED\n", c.vector, a.Panic), true
-		}
-		if !a.Ok || a.Err != "" {
-			return head + fmt.Sprintf("SCORE-HIT vector %s: a well-formed vector is rejected: %s\n=> CONFIRMED\n", c.vector, a.Err), true
+		if a.Panic != "" || !a.Ok || a.Err != "" {
+			if aspect == "value" || aspect == "views" {
+				return head + fmt.Sprintf("SCORE-HIT vector %s: the real code does not decode / score a well-formed vector: panic=%q err=%q\n=> CONFIRMED\n", c.vector, a.Panic, a.Err), true
+			}
+			continue
 		}
 		got := []float64{a.Base, a.Temporal, a.Env}
-		names := []string{"base", "temporal", "environmental"}
-		for j := 0; j < 3; j++ {
-			want := float64(exp[3*i+j]) / 10
-			if got[j] != want || math.Signbit(got[j]) {
-				return head + fmt.Sprintf("SCORE-HIT vector %s: %s score of the real code is %v, the specification gives %v\n=> CONFIRMED\n", c.vector, names[j], got[j], want), true
+		switch aspect {
+		case "value":
+			for j := 0; j < 3; j++ {
+				want := float64(exp[3*i+j]) / 10
+				if got[j] != want {
+					return head + fmt.Sprintf("SCORE-HIT vector %s: %s score of the real code is %v, the specification gives %v\n=> CONFIRMED\n", c.vector, names[j], got[j], want), true
+				}
 			}
-			if len(a.Sev) == 3 && !strings.EqualFold(a.Sev[j], band(exp[3*i+j])) {
-				return head + fmt.Sprintf("SCORE-HIT vector %s: %s severity of the real code is %s for score %v, the rating scale gives %s\n=> CONFIRMED\n", c.vector, names[j], a.Sev[j], got[j], band(exp[3*i+j])), true
+		case "grid":
+			for j := 0; j < 3; j++ {
+				k, ok := onGrid(got[j], 0, 100)
+				if !ok || math.Signbit(got[j]) {
+					return head + fmt.Sprintf("SCORE-HIT vector %s: %s score of the real code is %v: not a multiple of 0.1 in 0.0..10.0\n=> CONFIRMED\n", c.vector, names[j], got[j]), true
+				}
+				if len(a.Sev) == 3 && !strings.EqualFold(a.Sev[j], v3Band(k)) {
+					return head + fmt.Sprintf("SCORE-HIT vector %s: %s severity of the real code is %s for its own score %v, the rating scale gives %s\n=> CONFIRMED\n", c.vector, names[j], a.Sev[j], got[j], v3Band(k)), true
+				}
+			}
+		case "neutral":
+			if got[1] > got[0] {
+				return head + fmt.Sprintf("SCORE-HIT vector %s: temporal score %v exceeds the base score %v\n=> CONFIRMED\n", c.vector, got[1], got[0]), true
+			}
+			if allX(c, "E", "RL", "RC") && got[1] != got[0] {
+				return head + fmt.Sprintf("SCORE-HIT vector %s: E, RL, RC are all Not Defined but the temporal score %v differs from the base score %v\n=> CONFIRMED\n", c.vector, got[1], got[0]), true
+			}
+			if allX(c, "CR", "IR", "AR", "MAV", "MAC", "MPR", "MUI", "MS", "MC", "MI", "MA") && !(c.ver == "3.1" && c.tok["S"] == "C") && got[2] != got[1] {
+				return head + fmt.Sprintf("SCORE-HIT vector %s: all environmental metrics are Not Defined but the environmental score %v differs from the temporal score %v\n=> CONFIRMED\n", c.vector, got[2], got[1]), true
+			}
+		case "views":
+			for k := 0; k+2 < len(a.Out); k += 3 {
+				if a.Out[k+1] != a.Out[k+2] {
+					return head + fmt.Sprintf("SCORE-HIT vector %s: %s is %q, the lower-level decoder on %s gives %q\n=> CONFIRMED\n", c.vector, a.Out[k], a.Out[k+1], c.parts[map[bool]int{true: 0, false: 1}[strings.HasPrefix(a.Out[k], "base")]], a.Out[k+2]), true
+				}
 			}
 		}
 	}
@@ -246,8 +333,11 @@ func v2ScoreCases(st *SpecTables) []v2Case {
 						for _, a := range codes("A") {
 							b := map[string]string{"AV": av, "AC": ac, "Au": au, "C": c, "I": i, "A": a}
 							cases = append(cases, mk(b, false, false))
-							for _, sp := range [][]string{{"N", "H", "ND", "ND", "ND"}, {"ND", "ND", "ND", "ND", "ND"}, {"L", "M", "ND", "ND", "ND"}, {"ND", "ND", "M", "M", "M"}, {"H", "L", "H", "H", "H"}, {"MH", "H", "L", "L", "L"}} {
+							for _, sp := range [][]string{{"N", "H", "ND", "ND", "ND"}, {"ND", "ND", "ND", "ND", "ND"}, {"L", "M", "ND", "ND", "ND"}, {"ND", "ND", "M", "M", "M"}, {"H", "L", "H", "H", "H"}, {"MH", "H", "L", "L", "L"}, {"H", "N", "H", "M", "L"}, {"LM", "H", "ND", "M", "ND"}} {
 								t := map[string]string{"CDP": sp[0], "TD": sp[1], "CR": sp[2], "IR": sp[3], "AR": sp[4], "E": "F", "RL": "OF", "RC": "C"}
+								if sp[0] == "LM" {
+									t["E"], t["RL"], t["RC"] = "ND", "ND", "ND"
+								}
 								for k, v := range b {
 									t[k] = v
 								}
@@ -281,24 +371,53 @@ func knownInstanceKeys() map[string]bool {
 	return out
 }
 
-func v2ScoreProbe(u *Universe, st *SpecTables, repo string) (string, bool) {
-	key := "v2|" + repo
+func v2ScoreProbe(u *Universe, st *SpecTables, repo, aspect string) (string, bool) {
+	key := "v2|" + aspect + "|" + repo
 	if v, ok := scoreProbeCache.Load(key); ok {
 		r := v.([2]interface{})
 		return r[0].(string), r[1].(bool)
 	}
-	rep, hit := v2ScoreProbeRun(u, st, repo)
+	rep, hit := v2ScoreProbeRun(u, st, repo, aspect)
 	scoreProbeCache.Store(key, [2]interface{}{rep, hit})
 	return rep, hit
 }
 
-func v2ScoreProbeRun(u *Universe, st *SpecTables, repo string) (string, bool) {
-	head := "score probe on the real code (v2: all 729 base vectors, each also with 6 fixed and 5 seeded random temporal / environmental groups, decoded by the Environmental decoder; oracle: the specification prelude evaluated by z3: every stage is a nearest tenth of the equation applied to the rounded result of the previous stage; instances listed as known findings are skipped):\n"
+func v2Band(k int) string {
+	switch {
+	case k <= 39:
+		return "Low"
+	case k <= 69:
+		return "Medium"
+	}
+	return "High"
+}
+
+func v2ScoreProbeRun(u *Universe, st *SpecTables, repo, aspect string) (string, bool) {
+	head := "score probe on the real code, aspect '" + aspect + "' (v2: all 729 base vectors, each also with 8 fixed and 5 seeded random temporal / environmental groups, decoded by the Environmental decoder"
+	switch aspect {
+	case "value":
+		head += "; oracle: the specification prelude evaluated by z3: every stage is a nearest tenth of the equation applied to the rounded result of the previous stage; instances listed as known findings are skipped):\n"
+	case "grid":
+		head += "; every score a multiple of 0.1 in 0..10 (environmental level: a negative tenth down to -2.0 is the stated exception), severity the band of the same score where it is positive):\n"
+	case "neutral":
+		head += "; E/RL/RC all ND or absent => temporal = base; temporal <= base; TD:N => environmental = 0):\n"
+	case "views":
+		head += "; base / temporal score, severity and encoding through the higher-level object against the lower-level decoders on the projected vector):\n"
+	}
 	cases := v2ScoreCases(st)
 	known := knownInstanceKeys()
 	var reqs []map[string]interface{}
 	for _, c := range cases {
-		reqs = append(reqs, map[string]interface{}{"op": "decode", "vector": c.vector})
+		if aspect == "views" {
+			bp := strings.Join(strings.Split(c.vector, "/")[:6], "/")
+			tp := bp
+			if c.hasT {
+				tp = strings.Join(strings.Split(c.vector, "/")[:9], "/")
+			}
+			reqs = append(reqs, map[string]interface{}{"op": "views", "vector": c.vector, "args": []string{bp, tp}})
+		} else {
+			reqs = append(reqs, map[string]interface{}{"op": "decode", "vector": c.vector})
+		}
 	}
 	ans, _, err := runHarness(repo, "v2/metric", reqs)
 	if err != nil || len(ans) != len(cases) {
@@ -312,13 +431,50 @@ func v2ScoreProbeRun(u *Universe, st *SpecTables, repo string) (string, bool) {
 	sb.WriteString(u.Prelude)
 	var idx []int
 	var obs [][3]int
+	names := []string{"base", "temporal", "environmental"}
 	for i, c := range cases {
 		a := ans[i]
-		if a.Panic != "" {
-			return head + fmt.Sprintf("SCORE-HIT vector %s: the real code panics: %s\n=> CONFIRMED\n", c.vector, a.Panic), true
+		if a.Panic != "" || !a.Ok || a.Err != "" {
+			if aspect == "value" || aspect == "views" {
+				return head + fmt.Sprintf("SCORE-HIT vector %s: the real code does not decode / score a canonical vector: panic=%q err=%q\n=> CONFIRMED\n", c.vector, a.Panic, a.Err), true
+			}
+			continue
 		}
-		if !a.Ok || a.Err != "" {
-			return head + fmt.Sprintf("SCORE-HIT vector %s: a canonical vector is rejected: %s\n=> CONFIRMED\n", c.vector, a.Err), true
+		got := []float64{a.Base, a.Temporal, a.Env}
+		switch aspect {
+		case "views":
+			for k := 0; k+2 < len(a.Out); k += 3 {
+				if a.Out[k+1] != a.Out[k+2] {
+					return head + fmt.Sprintf("SCORE-HIT vector %s: %s is %q, the lower-level decoder on the projected vector gives %q\n=> CONFIRMED\n", c.vector, a.Out[k], a.Out[k+1], a.Out[k+2]), true
+				}
+			}
+			continue
+		case "grid":
+			for j := 0; j < 3; j++ {
+				k, ok := grid(got[j])
+				lo := 0
+				if j == 2 && c.hasE {
+					lo = -20
+				}
+				if !ok || k < lo || k > 100 {
+					return head + fmt.Sprintf("SCORE-HIT vector %s: %s score of the real code is %v: not a multiple of 0.1 in the permitted range\n=> CONFIRMED\n", c.vector, names[j], got[j]), true
+				}
+				if len(a.Sev) == 3 && k > 0 && !strings.EqualFold(a.Sev[j], v2Band(k)) {
+					return head + fmt.Sprintf("SCORE-HIT vector %s: %s severity of the real code is %s for its own score %v, the rating scale gives %s\n=> CONFIRMED\n", c.vector, names[j], a.Sev[j], got[j], v2Band(k)), true
+				}
+			}
+			continue
+		case "neutral":
+			if got[1] > got[0] {
+				return head + fmt.Sprintf("SCORE-HIT vector %s: temporal score %v exceeds the base score %v\n=> CONFIRMED\n", c.vector, got[1], got[0]), true
+			}
+			if (!c.hasT || (c.tok["E"] == "ND" && c.tok["RL"] == "ND" && c.tok["RC"] == "ND")) && got[1] != got[0] {
+				return head + fmt.Sprintf("SCORE-HIT vector %s: E, RL, RC are Not Defined / absent but the temporal score %v differs from the base score %v\n=> CONFIRMED\n", c.vector, got[1], got[0]), true
+			}
+			if c.hasE && c.tok["TD"] == "N" && got[2] != 0 {
+				return head + fmt.Sprintf("SCORE-HIT vector %s: Target Distribution is None but the environmental score is %v\n=> CONFIRMED\n", c.vector, got[2]), true
+			}
+			continue
 		}
 		if c.hasE && known[c.instKey] {
 			continue
@@ -357,6 +513,9 @@ func v2ScoreProbeRun(u *Universe, st *SpecTables, repo string) (string, bool) {
 		idx = append(idx, i)
 		obs = append(obs, [3]int{kb, kt, ke})
 	}
+	if aspect != "value" {
+		return head + fmt.Sprintf("no difference observed in this probe (%d vectors)\n", len(cases)), false
+	}
 	tmp, err := os.MkdirTemp("", "govc-scoreprobe-")
 	if err != nil {
 		return head + err.Error(), false
@@ -381,7 +540,6 @@ func v2ScoreProbeRun(u *Universe, st *SpecTables, repo string) (string, bool) {
 	if len(verdicts) != 3*len(idx) {
 		return head + fmt.Sprintf("probe did not run to completion (%d of %d verdicts: %s)\n", len(verdicts), 3*len(idx), tail(out.String(), 300)), false
 	}
-	names := []string{"base", "temporal", "environmental"}
 	for n, i := range idx {
 		for j := 0; j < 3; j++ {
 			switch verdicts[3*n+j] {
